@@ -288,6 +288,9 @@ func (t *Typechecker) VisitStringLit(expr *ast.StringLit) ast.VisitResult {
 func (t *Typechecker) VisitListLit(expr *ast.ListLit) ast.VisitResult {
 	if expr.Values != nil {
 		elementType := t.Evaluate(expr.Values[0])
+		if ddptypes.IsList(elementType) {
+			t.errExpr(ddperror.TYP_BAD_LIST_LITERAL, expr.Values[0], "Die Elemente einer Liste können keine Listen sein (%s)", elementType)
+		}
 		for _, v := range expr.Values[1:] {
 			if ty := t.Evaluate(v); !ddptypes.Equal(elementType, ty) {
 				t.errExpr(ddperror.TYP_BAD_LIST_LITERAL, v, "Falscher Typ (%s) in Listen Literal vom Typ %s", ty, elementType)
@@ -299,7 +302,11 @@ func (t *Typechecker) VisitListLit(expr *ast.ListLit) ast.VisitResult {
 			t.errExpr(ddperror.TYP_BAD_LIST_LITERAL, expr, "Die Größe einer Liste muss als Zahl oder Byte angegeben werden, nicht als %s", count)
 		}
 
-		expr.Type = ddptypes.ListType{ElementType: t.Evaluate(expr.Value)}
+		elementType := t.Evaluate(expr.Value)
+		if ddptypes.IsList(elementType) {
+			t.errExpr(ddperror.TYP_BAD_LIST_LITERAL, expr.Value, "Die Elemente einer Liste können keine Listen sein (%s)", elementType)
+		}
+		expr.Type = ddptypes.ListType{ElementType: elementType}
 	}
 	t.latestReturnedType = expr.Type
 	return ast.VisitRecurse
